@@ -40,12 +40,13 @@ class Exc(str):
 
 
 class Val:
-    __slots__ = ("taint", "kind", "lb", "exact", "types", "classes", "elem", "ilb", "cv", "kw", "may_none", "fields", "len_of", "iub")
+    __slots__ = ("taint", "kind", "lb", "exact", "types", "classes", "elem", "ilb", "cv", "kw", "may_none", "fields", "len_of", "iub", "built")
     NOCV = ("<no constant>",)
 
     def __init__(self, taint=False, kind="any", lb=0, exact=None, types=frozenset(), classes=frozenset(), elem=None,
-                 ilb=None, cv=NOCV, kw=None, may_none=False, fields=None, len_of=None, iub=None):
+                 ilb=None, cv=NOCV, kw=None, may_none=False, fields=None, len_of=None, iub=None, built=False):
         self.iub = iub                                  # integer upper bound
+        self.built = built                              # `types` are the exact classes of constructor calls (not "some subclass of")
         self.taint, self.kind, self.lb, self.exact = taint, kind, lb, exact
         self.types, self.classes, self.elem = types, classes, elem
         self.ilb, self.cv, self.kw = ilb, cv, kw      # integer lower bound; known constant; **kwargs contents
@@ -56,7 +57,7 @@ class Val:
         return (self.taint, self.kind, self.lb, self.exact, self.types, self.classes, self.elem.key() if self.elem else None,
                 self.ilb, self.cv if isinstance(self.cv, (int, str, bool, type(None), tuple)) else None,
                 tuple((k, v.key()) for k, v in self.kw) if self.kw else None, self.may_none,
-                tuple((k, v.key()) for k, v in self.fields) if self.fields else None, self.len_of, self.iub)
+                tuple((k, v.key()) for k, v in self.fields) if self.fields else None, self.len_of, self.iub, self.built)
 
     def __eq__(self, o):
         return isinstance(o, Val) and self.key() == o.key()
@@ -75,7 +76,7 @@ class Val:
         return "<" + " ".join(bits) + ">"
 
     def but(self, **kw):
-        v = Val(self.taint, self.kind, self.lb, self.exact, self.types, self.classes, self.elem, self.ilb, self.cv, self.kw, self.may_none, self.fields, self.len_of, self.iub)
+        v = Val(self.taint, self.kind, self.lb, self.exact, self.types, self.classes, self.elem, self.ilb, self.cv, self.kw, self.may_none, self.fields, self.len_of, self.iub, self.built)
         for k, x in kw.items():
             setattr(v, k, x)
         return v
@@ -106,7 +107,8 @@ def join_val(a: Val, b: Val) -> Val:
         fields = tuple(sorted(((k, join_val(fa[k], fb[k])) for k in fa if k in fb), key=lambda kv: kv[0])) or None
     return Val(a.taint or b.taint, kind, min(a.lb, b.lb), a.exact if a.exact == b.exact else None,
                a.types | b.types, a.classes | b.classes, elem, ilb, cv, a.kw if a.kw == b.kw else None,
-               a.may_none or b.may_none, fields, iub=max(a.iub, b.iub) if a.iub is not None and b.iub is not None else None)
+               a.may_none or b.may_none, fields, iub=max(a.iub, b.iub) if a.iub is not None and b.iub is not None else None,
+               built=bool((a.built or (a.kind == "none" and not a.types)) and (b.built or (b.kind == "none" and not b.types)) and (a.types or b.types)))
 
 
 class St:
@@ -563,7 +565,12 @@ class FnAnalysis(Analysis):
                         ts.add(r.qual)
                 if ts:
                     cur = st.env.get(k, CLEAN)
-                    st.env[k] = cur.but(types=frozenset(ts), kind="obj")
+                    if cur.built and cur.types:
+                        # exact classes: keep those that are instances of the tested classes
+                        keep = frozenset(q for q in cur.types if q in self.prog.classes and any(t in {x.qual for x in self.prog.mro(self.prog.classes[q])} for t in ts))
+                        st.env[k] = cur.but(types=keep or frozenset(ts), kind="obj", built=bool(keep), may_none=False)
+                    else:
+                        st.env[k] = cur.but(types=frozenset(ts), kind="obj", built=False, may_none=False)      # (an instance is not None)
             return
         if isinstance(test, ast.Compare) and len(test.ops) == 1 and isinstance(test.ops[0], (ast.Is, ast.IsNot)) \
                 and isinstance(test.comparators[0], ast.Constant) and test.comparators[0].value is None:
@@ -825,6 +832,32 @@ class FnAnalysis(Analysis):
             return Val(kind="bytes" if isinstance(r, bytes) else "str", lb=len(r), exact=len(r), cv=r)
         return None
 
+    def has_attribute(self, c: ClassInfo, name: str) -> bool:
+        """Instances of c have attribute `name`: a method / property / class attribute / nested class anywhere in the MRO, or an
+        instance attribute assigned in a method of the MRO; classes with bases outside the package or __getattr__ are not judged."""
+        cache = self.R.__dict__.setdefault("_attr_cache", {})
+        key = (c.qual, name)
+        if key in cache:
+            return cache[key]
+        ok = False
+        for k in self.prog.mro(c):
+            if name in k.methods or name in k.attrs or name in k.nested or name in getattr(k, "props_set", {}) or "__getattr__" in k.methods:
+                ok = True
+                break
+            if self.prog.ext_bases(k) and any(b not in ("object",) for b in self.prog.ext_bases(k)):
+                ok = True
+                break
+            for f in k.methods.values():
+                if not f.params:
+                    continue
+                for n in ast.walk(f.node):
+                    if isinstance(n, ast.Attribute) and isinstance(n.ctx, ast.Store) and n.attr == name and isinstance(n.value, ast.Name) and n.value.id == f.params[0]:
+                        ok = True
+            if ok:
+                break
+        cache[key] = ok
+        return ok
+
     def v_Attribute(self, e, st):
         k = self.key_of(e)
         if k and k in st.env:
@@ -834,6 +867,11 @@ class FnAnalysis(Analysis):
             if fc is not None:
                 return fc
         base = self.val(e.value, st)
+        if base.built and base.types and isinstance(e.ctx, ast.Load):
+            missing = sorted(q for q in base.types if q in self.prog.classes and not self.has_attribute(self.prog.classes[q], e.attr))
+            if missing:
+                self.raiser(e, "AttributeError", f"`.{e.attr}` is read on a value that can be a {', '.join(m.split('.')[-1] for m in missing)} - "
+                                                 f"a class that has no such attribute (a cast does not change the object)")
         if base.fields:
             fd = dict(base.fields)
             if e.attr in fd:
@@ -1364,13 +1402,13 @@ class FnAnalysis(Analysis):
             ext = self.prog.ext_bases(c)
             ini = self.prog.lookup_method(c, "__init__")
             if ini is not None:
-                obj = Val(taint=any_taint, kind="obj", types=frozenset([q]))
+                obj = Val(taint=any_taint, kind="obj", types=frozenset([q]), built=True)
                 self.call_repo(e, ini, c, [obj] + argv, kwv, st)
             elif any(b.endswith("Exception") or b.endswith("Error") for b in ext) or not ext:
                 pass
         if any(self.prog.is_enum(self.prog.classes[q]) for q in out_types if q in self.prog.classes):
             return Val(taint=any_taint, kind="int", types=frozenset(out_types))
-        return Val(taint=any_taint, kind="obj", types=frozenset(out_types))
+        return Val(taint=any_taint, kind="obj", types=frozenset(out_types), built=True)
 
     def call_ext(self, e, ext: Optional[str], meth, argv: List[Val], kwv, st) -> Val:
         """Library / builtin / unresolved-method call: the library model."""
@@ -1434,6 +1472,8 @@ class FnAnalysis(Analysis):
             if name in ("typing.cast", "cast"):
                 v = argv[1] if len(argv) > 1 else CLEAN
                 ts = self.annotation_types(e.args[0]) if e.args else frozenset()
+                if v.built and v.types:
+                    return v                   # typing.cast is a no-op at run time: the value keeps the classes it really has
                 return v.but(types=ts) if ts else v
             if name == "getattr":
                 return Val(any_taint)
